@@ -84,8 +84,56 @@ def run_history(ctx, case, history, tmpdir, use_recorder_class):
         if replay_blocks != got_blocks:
             ctx.note("model self-check failed: replay blocks != first blocks")
         for phase, nreads in enumerate(history[1:], start=2):
+            if phase == 2 and case["kind"] in ("raw_lazy", "raw_obj", "wav_lazy", "wav_obj") and case["seed"] % 3 == 0:
+                # the file changes on disk after it was read (another take is recorded over it, it is replaced or deleted):
+                # what was consumed is what was consumed
+                import os as _os
+
+                pth = _os.path.join(tmpdir, "in.raw" if case["kind"].startswith("raw") else "in.wav")
+                if _os.path.exists(pth):
+                    how = (case["seed"] // 3) % 3
+                    if how == 0:
+                        with open(pth, "r+b") as fp_:
+                            raw_ = fp_.read()
+                            fp_.seek(44 if pth.endswith(".wav") else 0)
+                            fp_.write(bytes(255 - x for x in raw_[44 if pth.endswith(".wav") else 0:]))
+                    elif how == 1:
+                        _os.replace(pth, pth + ".old")
+                        with open(pth, "wb") as fp_:
+                            fp_.write(b"something else entirely")
+                    else:
+                        _os.unlink(pth)
+                    ctx.count("source_files_changed_on_disk_before_the_rewind")
             step = f"rewind #{phase - 1}"
-            reader.rewind()
+            rescued = []
+            done_ = None
+            if case["kind"] == "raw_fifo_lazy":
+                # a named pipe cannot be read twice: a rewind that goes back to the source blocks for ever in open().  A helper
+                # opens the writing end after a while so that the verdict is a verdict and not a watchdog
+                import os as _os
+                import threading as _th
+
+                done_ = _th.Event()
+                fifo_ = _os.path.join(tmpdir, "in.fifo")
+
+                def rescue():
+                    if not done_.wait(3.0):
+                        try:
+                            fd_ = _os.open(fifo_, _os.O_WRONLY | _os.O_NONBLOCK)
+                            rescued.append(1)
+                            _os.close(fd_)
+                        except OSError:
+                            pass
+
+                _th.Thread(target=rescue, daemon=True).start()
+            try:
+                reader.rewind()
+            finally:
+                if done_ is not None:
+                    done_.set()
+            if rescued:
+                ctx.violation("rewind-goes-back-to-the-source", {"case": cj, "phase": phase, "source": "a named pipe whose writer is gone"})
+                return
             ctx.count("rewinds")
             step = f"data after rewind #{phase - 1}"
             rec = reader.data
